@@ -59,7 +59,7 @@ fn field_checks<F: PrimeField + Ord>(ctx: &Ctx, fc: &FieldCase<F>) {
     let name = fc.name;
     let p = &fc.p;
     let mut rng = ctx.rng(name);
-    let ints = alpha::field_values(p, fc.limbs, &mut rng, ctx.tier.pick(16, 48));
+    let ints = alpha::field_values(p, fc.limbs, &mut rng, ctx.tier.pick(16, 420));
     let els: Vec<F> = ints.iter().map(|x| F::from_repr(repr_of::<F::Repr>(x)).expect("alphabet member not reduced")).collect();
     let n = ints.len() as u64;
     ctx.require(n >= 40, "field alphabet too small");
@@ -219,7 +219,7 @@ fn field_checks<F: PrimeField + Ord>(ctx: &Ctx, fc: &FieldCase<F>) {
     // ---- pow with multi-limb exponents
     let sub = format!("{}.pow", name);
     let es = exps(p, &mut rng);
-    let nb = ctx.tier.pick(12u64, 24).min(n);
+    let nb = ctx.tier.pick(12u64, 96).min(n);
     // bases: a spread over the alphabet
     let bases: Vec<usize> = (0..nb as usize).map(|k| (k * ints.len()) / nb as usize).collect();
     let rad = [bases.len() as u64, es.len() as u64];
@@ -248,7 +248,7 @@ fn field_checks<F: PrimeField + Ord>(ctx: &Ctx, fc: &FieldCase<F>) {
     );
 
     // ---- representation type
-    let rints = alpha::repr_values(p, fc.limbs, &mut rng, ctx.tier.pick(12, 40));
+    let rints = alpha::repr_values(p, fc.limbs, &mut rng, ctx.tier.pick(12, 120));
     let reps: Vec<F::Repr> = rints.iter().map(|x| repr_of::<F::Repr>(x)).collect();
     let m = rints.len() as u64;
     let bits = 64 * fc.limbs;
